@@ -322,19 +322,29 @@ AOF and replayed) since its last reset, in arrival order; `conn`; `cur` = the cu
 
 Events (each is one atomic step; a cut is an event at a message boundary):
 * `append dlen` — the leader persists and publishes record `log.length + 1`.
-* `connect f` — `sendSyncCommand` + `handleInitSync` + `addServerChannel` (AddPoll), decided exactly as the code does:
-  reported id empty → `Head`; the answer H is the newest buffered id (next id to be written if the buffer is empty); the
-  client resets its log, SETS `curId := H` (InitSync line `self.currentAofId = aofId` before `recvFiles`), phase `files`;
-  known id → `Search`: found → resume after it; not found but equal to the manager's current id → wait at the end;
-  otherwise `ERR_NOT_FOUND` → the client clears its id and repeats the request with an empty id.
+* `connect f` — `sendSyncCommand` + `handleInitSync`, decided exactly as the code does: reported id empty → `Head`; the answer H
+  is the newest buffered id (next id to be written if the buffer is empty); the client resets its log (`aof.Reset`, `FlushDB`);
+  known id → `Search`: found → the cursor is positioned on it; not found but equal to the manager's current id → wait at the
+  end; otherwise `ERR_NOT_FOUND` → the client clears its id and repeats the request with an empty id. The channel is now in
+  `wait`: the leader waits for the client's "started" message (`waitStarted`) — pushes may happen in between.
+* `start f` — the "started" message arrived: `addServerChannel` (AddPoll on the cursor as positioned at `connect`); after a
+  transfer from scratch the client NOW stores `curId := H` (InitSync: `self.currentAofId = aofId` before `recvFiles`) and
+  the file phase begins; after a resume the stream begins.
 * `deliver f` — phase `files H pos`: the next persisted record with id < H is transferred and applied (`curId :=` its id),
   or the end marker switches to `stream`; phase `stream`: one iteration of `SendProcess`: the item in hand is written
   (applied by the follower, `curId :=` its id) and acknowledged, else `Pop` (error → the channel closes, RemovePoll).
-* `cut f` — the connection is lost: RemovePoll, `conn := off`; the follower keeps `curId` and its log and will reconnect.
+  NOT modelled: `LoadAofFile`'s filter that drops records whose own deadline has passed (every record < H is transferred;
+  i.e. no record expires during the run).
+* `cut f` — the connection is lost, both processes live on: RemovePoll (if added), `conn := off`; the follower keeps `curId`
+  and its log and will reconnect.
+* `restartSame f` — the follower process is killed and restarted on the SAME data dir: as `cut`, and `curId` is re-read from
+  its own AOF (= the last record it has applied).
+* `restartEmpty f` — … restarted on an EMPTY data dir: as `cut`, `curId := 0`, log empty.
 -/
 
 inductive Conn
   | off
+  | wait (h : Option Nat)   -- handshake answered, "started" not yet received: `some h` = transfer from scratch up to h, `none` = resume
   | files (h pos : Nat)
   | stream
   deriving Repr, DecidableEq
@@ -367,13 +377,16 @@ def setF : List (Nat × Fol) → Nat → Fol → List (Nat × Fol)
 inductive Ev
   | append (dlen : Nat)
   | connect (f : Nat)
+  | start (f : Nat)
   | deliver (f : Nat)
   | cut (f : Nat)
+  | restartSame (f : Nat)
+  | restartEmpty (f : Nat)
   deriving Repr, DecidableEq
 
 inductive SObs
   | ok
-  | full (h : Nat)            -- empty id (or ERR_NOT_FOUND and retry): file transfer up to h, then live stream
+  | full (h : Nat)            -- empty id: file transfer up to h, then live stream
   | retryFull (h : Nat)       -- ERR_NOT_FOUND, client cleared its id, full transfer
   | resume (id : Nat)         -- known id found in the buffer
   | atEnd (id : Nat)          -- not in the buffer but equal to the manager's current id
@@ -386,12 +399,17 @@ inductive SObs
   | noop
   deriving Repr, DecidableEq
 
-/-- `handleInitSync` with an empty id, and the client's reaction -/
+/-- the channel's cursor is registered with the buffer (AddPoll done, RemovePoll not yet) -/
+def Conn.polled : Conn → Bool
+  | .files _ _ => true
+  | .stream => true
+  | _ => false
+
+/-- `handleInitSync` with an empty id, and the client's reaction (`aof.Reset`, `FlushDB`) -/
 def connectFull (s : Sync) (n : Nat) : Sync × Nat :=
   let r := head s.q newCursor
   let h := if r.1 = .ok then r.2.bufId else s.log.length + 1
-  let fol : Fol := { curId := h, log := [], conn := .files h 0, cur := r.2 }
-  ({ s with q := addPoll s.q r.2, fols := setF s.fols n fol }, h)
+  ({ s with fols := setF s.fols n { curId := 0, log := [], conn := .wait (some h), cur := r.2 } }, h)
 
 def connect (s : Sync) (n : Nat) : Sync × SObs :=
   let f := getF s.fols n
@@ -402,13 +420,20 @@ def connect (s : Sync) (n : Nat) : Sync × SObs :=
   else
     let r := search s.q f.curId newCursor
     if r.1 = .ok then
-      ({ s with q := addPoll s.q r.2, fols := setF s.fols n { f with conn := .stream, cur := r.2 } }, .resume f.curId)
+      ({ s with fols := setF s.fols n { f with conn := .wait none, cur := r.2 } }, .resume f.curId)
     else if f.curId = s.log.length then
-      let c := seekEnd s.q newCursor
-      ({ s with q := addPoll s.q c, fols := setF s.fols n { f with conn := .stream, cur := c } }, .atEnd f.curId)
+      ({ s with fols := setF s.fols n { f with conn := .wait none, cur := seekEnd s.q newCursor } }, .atEnd f.curId)
     else
       let r := connectFull s n
       (r.1, .retryFull r.2)
+
+/-- the client's "started" message: `addServerChannel`; the file phase / the stream begins -/
+def start (s : Sync) (n : Nat) : Sync × SObs :=
+  let f := getF s.fols n
+  match f.conn with
+  | .wait none => ({ s with q := addPoll s.q f.cur, fols := setF s.fols n { f with conn := .stream } }, .ok)
+  | .wait (some h) => ({ s with q := addPoll s.q f.cur, fols := setF s.fols n { f with curId := h, conn := .files h 0 } }, .ok)
+  | _ => (s, .noop)
 
 /-- one iteration of `SendProcess` for the channel serving follower `f` (phase `stream`) -/
 def streamStep (q : Q) (f : Fol) : Q × Fol × SObs :=
@@ -426,7 +451,6 @@ def streamStep (q : Q) (f : Fol) : Q × Fol × SObs :=
 def deliver (s : Sync) (n : Nat) : Sync × SObs :=
   let f := getF s.fols n
   match f.conn with
-  | .off => (s, .noop)
   | .files h pos =>
     match s.log[pos]? with
     | some id =>
@@ -437,19 +461,34 @@ def deliver (s : Sync) (n : Nat) : Sync × SObs :=
   | .stream =>
     let r := streamStep s.q f
     ({ s with q := r.1, fols := setF s.fols n r.2.1 }, r.2.2)
+  | _ => (s, .noop)
+
+/-- the channel of follower `n` goes away (`removeServerChannel` if it had been added); the follower becomes `f'` -/
+def dropChannel (s : Sync) (n : Nat) (f' : Fol) : Sync :=
+  let f := getF s.fols n
+  { s with q := (if f.conn.polled then removePoll s.q f.cur else s.q), fols := setF s.fols n f' }
 
 def cut (s : Sync) (n : Nat) : Sync × SObs :=
   let f := getF s.fols n
-  if f.conn = .off then (s, .noop)
-  else ({ s with q := removePoll s.q f.cur, fols := setF s.fols n { f with conn := .off } }, .ok)
+  if f.conn = .off then (s, .noop) else (dropChannel s n { f with conn := .off }, .ok)
+
+def restartSame (s : Sync) (n : Nat) : Sync × SObs :=
+  let f := getF s.fols n
+  (dropChannel s n { f with conn := .off, curId := f.log.length }, .ok)
+
+def restartEmpty (s : Sync) (n : Nat) : Sync × SObs :=
+  (dropChannel s n Fol.new, .ok)
 
 def sstep (s : Sync) : Ev → Sync × SObs
   | .append dlen =>
     let id := s.log.length + 1
     ({ s with q := push s.q id id dlen, log := s.log ++ [id] }, .ok)
   | .connect n => connect s n
+  | .start n => start s n
   | .deliver n => deliver s n
   | .cut n => cut s n
+  | .restartSame n => restartSame s n
+  | .restartEmpty n => restartEmpty s n
 
 def srun (s : Sync) : List Ev → Sync
   | [] => s
